@@ -107,7 +107,7 @@ def is_valid_ipv4(address, strict=True):
     flag = INET_PTON if strict else INET_ATON
     try:
         return netaddr.valid_ipv4(address, flags=flag)
-    except netaddr.AddrFormatError:
+    except (ValueError, netaddr.AddrFormatError):
         return False
 
 
@@ -131,7 +131,7 @@ def is_valid_ipv6(address):
 
     try:
         return netaddr.valid_ipv6(address, netaddr.core.INET_PTON)
-    except netaddr.AddrFormatError:
+    except (ValueError, netaddr.AddrFormatError):
         return False
 
 
@@ -162,7 +162,7 @@ def is_valid_cidr(address):
     try:
         # Validate the correct CIDR Address
         netaddr.IPNetwork(address)
-    except (TypeError, netaddr.AddrFormatError):
+    except (TypeError, ValueError, netaddr.AddrFormatError):
         return False
 
     # Prior validation partially verify /xx part
@@ -188,7 +188,7 @@ def is_valid_ipv6_cidr(address):
     try:
         netaddr.IPNetwork(address, version=6).cidr
         return True
-    except (TypeError, netaddr.AddrFormatError):
+    except (TypeError, ValueError, netaddr.AddrFormatError):
         return False
 
 
